@@ -77,9 +77,9 @@ static Setup setup_for(const Config& c) {
 }
 
 // ---------- operations ----------
-enum OpK { O_SP, O_USP, O_GSP, O_SDP, O_DP, O_REP, O_SL };
+enum OpK { O_SP, O_USP, O_GSP, O_SDP, O_DP, O_REP, O_SL, O_ST };
 static const char* op_name(OpK k) {
-	static const char* n[] = {"SetShapePartitions", "UpdateSkinPartitions", "GetShapePartitions", "SetDefaultPartition", "DeletePartitions", "RemoveEmptyPartitions", "Save+Load"};
+	static const char* n[] = {"SetShapePartitions", "UpdateSkinPartitions", "GetShapePartitions", "SetDefaultPartition", "DeletePartitions", "RemoveEmptyPartitions", "Save+Load", "SetTriangles(drop last)"};
 	return n[k];
 }
 struct Op {
@@ -98,7 +98,7 @@ static J op_json(const Op& o) {
 static bool op_from_json(const J& j, Op& o) {
 	std::string n = j[0].str();
 	bool ok = false;
-	for (int k = 0; k <= O_SL; k++) if (n == op_name((OpK) k)) { o.k = (OpK) k; ok = true; }
+	for (int k = 0; k <= O_ST; k++) if (n == op_name((OpK) k)) { o.k = (OpK) k; ok = true; }
 	if (!ok) return false;
 	if (o.k == O_SP) { o.n = (int) j[1].i64(); for (auto& x : j[2].a) o.a.push_back((int) x.i64()); }
 	if (o.k == O_DP) for (auto& x : j[1].a) o.a.push_back((int) x.i64());
@@ -145,6 +145,7 @@ static std::vector<Op> full_sp(const Config& c, int T) {
 static std::vector<Op> small_alphabet(int T, int P) {
 	std::vector<Op> out;
 	for (OpK k : {O_USP, O_GSP, O_SDP, O_REP, O_SL}) { Op o; o.k = k; out.push_back(o); }
+	if (T >= 2) { Op o; o.k = O_ST; out.push_back(o); } // the shape loses its last triangle: cached assignments of the old size must not survive
 	auto dp = [&](uint32_t mask) {
 		Op o;
 		o.k = O_DP;
@@ -169,6 +170,7 @@ struct Model {
 	int nbones = 0;
 	bool orphaned = false;	 // a non-empty partition was deleted and nothing reassigned its triangles since
 	bool vmap_exact = true;	 // the last operation that shaped the partitions was not SetDefaultPartition
+	bool stale = false;		 // SetTriangles changed the triangle list and nothing has rebuilt or reassigned the partitions since
 	// results of the last GetShapePartitions
 	bool gsp_ok = false;
 	NiVector<BSDismemberSkinInstance::PartitionInfo> gsp_info;
@@ -222,11 +224,13 @@ static bool apply_op(Model& m, const Op& o, Ctx& cx) {
 			nif.SetShapePartitions(m.shape, info, tp);
 			m.orphaned = false;
 			m.vmap_exact = true;
+			m.stale = false;
 			break;
 		}
 		case O_USP:
 			nif.UpdateSkinPartitions(m.shape);
 			m.vmap_exact = true;
+			m.stale = false;
 			break;
 		case O_GSP:
 			m.gsp_info.clear();
@@ -237,6 +241,7 @@ static bool apply_op(Model& m, const Op& o, Ctx& cx) {
 			nif.SetDefaultPartition(m.shape);
 			m.orphaned = false;
 			m.vmap_exact = false;
+			m.stale = false;
 			break;
 		case O_DP: {
 			SkinBlocks sk = skin_blocks(nif, m.shape);
@@ -250,6 +255,12 @@ static bool apply_op(Model& m, const Op& o, Ctx& cx) {
 		case O_REP:
 			nif.RemoveEmptyPartitions(m.shape);
 			break;
+		case O_ST: {
+			std::vector<Triangle> t;
+			m.shape->GetTriangles(t);
+			if (t.size() >= 2) { t.pop_back(); m.shape->SetTriangles(t); m.stale = true; }
+			break;
+		}
 		case O_SL: {
 			std::string bytes = save_raw(nif);
 			if (bytes.empty()) { cx.V("save-fails", "Save returns an error"); return false; }
@@ -260,7 +271,7 @@ static bool apply_op(Model& m, const Op& o, Ctx& cx) {
 			auto shapes = m.nif->GetShapes();
 			if (shapes.empty()) { cx.V("reload-fails", "shape missing after reload"); return false; }
 			m.shape = shapes[0];
-			if (m.nif->GetHeader().GetVersion().IsSSE()) m.orphaned = false; // SSE keeps triangles only inside partitions: orphans are gone
+			if (m.nif->GetHeader().GetVersion().IsSSE()) { m.orphaned = false; m.stale = false; } // SSE keeps triangles only inside partitions: orphans are gone, the list is the partitions' again
 			break;
 		}
 	}
@@ -311,6 +322,9 @@ static void check_state(Model& m, const Op& last, Ctx& cx, bool cover_before) {
 	std::string orph = m.orphaned ? ":orphaned-by-DeletePartitions" : "";
 	SkinBlocks sk = skin_blocks(nif, m.shape);
 	if (!sk.part || !sk.inst) { cx.V("skin-blocks-missing" + after, "skin instance or partition block no longer reachable"); return; }
+	// after SetTriangles the partitions still describe the old list: nothing is demanded of them until an operation
+	// that rebuilds or reassigns (the state is still executed, saved and continued from)
+	if (m.stale) { if (cx.st) cx.st->add("states_with_partitions_stale_after_SetTriangles"); return; }
 	NiSkinPartition& sp = *sk.part;
 	std::vector<Triangle> shapeTris;
 	m.shape->GetTriangles(shapeTris);
